@@ -144,6 +144,7 @@ fn main() {
         w_lo: 1,
         w_extra: 3,
         min_len: 0,
+        scales: vec![],
         cfg_ok: cfg_cmp,
         classify,
     };
@@ -186,6 +187,7 @@ fn main() {
         law: Law::Mask,
         w_lo: 1,
         w_extra: 3,
+        scales: vec![],
         classify: classify2,
     };
     let be_len = run.pick(3, 4);
@@ -258,6 +260,7 @@ fn shallow(f: &SeriesFam) -> SeriesFam {
         w_lo: f.w_lo,
         w_extra: f.w_extra,
         min_len: f.min_len,
+        scales: f.scales.clone(),
         cfg_ok: f.cfg_ok,
         classify: f.classify,
     }
